@@ -540,6 +540,37 @@ def loaded_from(fn, op):
     return None
 
 
+def alloca_reaching_value(fn, load):
+    """For a load from a (non-promoted) scalar alloca: the unique stored value that
+    reaches it, found by walking back through the block and its single-predecessor
+    chain; None if a call receives the alloca's address in between or the chain forks."""
+    p = resolve_addr(fn, load.ops[0])
+    if p.root[0] != "alloca" or p.steps:
+        return None
+    aid = p.root[1]
+    b = load.block
+    idx = load.idx
+    seen = set()
+    while True:
+        for k in range(idx - 1, -1, -1):
+            i = b.insts[k]
+            if i.op == "store":
+                q = resolve_addr(fn, i.ops[1])
+                if q.root == ("alloca", aid) and not q.steps:
+                    return i.ops[0]
+            elif i.is_call():
+                for a in i.args:
+                    q = resolve_addr(fn, a)
+                    if q.root == ("alloca", aid):
+                        return None
+        preds = [x for x in b.preds if fn.reachable(x)]
+        if len(preds) != 1 or preds[0] in seen:
+            return None
+        seen.add(b.name)
+        b = fn.bmap[preds[0]]
+        idx = len(b.insts)
+
+
 def const_int(op):
     if op.get("k") == "c":
         return op["v"]
